@@ -135,7 +135,7 @@ def ints_tree():
         n["intmulti"] = True
     vectors = []
     for base in ([], ["c1"]):
-        for tail in (["-n=7"], ["-n= 7"], ["-n=7 "], ["-n=7", "-n=\t12"], ["-n=12", "-n=7"], ["-n", "7"], ["-n", " 7"], ["-n=zz"], ["-n=7", "-n=zz"], ["-n= "]):
+        for tail in (["-n=7"], ["-n= 7"], ["-n=7 "], ["-n=7", "-n=\t12"], ["-n=12", "-n=7"], ["-n", "7"], ["-n", " 7"], ["-n=zz"], ["-n=7", "-n=zz"], ["-n= "], ["-n=100%"], ["-n=%d%s"]):
             vectors.append(base + tail)
     return {"version": "", "nodes": nodes, "vectors": vectors}
 
@@ -378,6 +378,11 @@ def judge(c, r):
             out.append(("routing", "a rejected invocation must end in a usage error, Run panicked with %r" % r["panic"]))
         if not r["errors"]:
             out.append(("policy", "rejection wrote no Error line"))
+        else:
+            # the error that is returned (ContinueOnError) or panicked with (PanicOnError) is the one that was written, verbatim
+            msg = r.get("err") if pol == "continue" else (r["panic"][len("error:"):] if pol == "panic" and (r.get("panic") or "").startswith("error:") else None)
+            if msg and ("Error: " + msg) not in r["errors"]:
+                out.append(("policy", "the error written is %r, the error of the rejection is %r" % (r["errors"][:1], msg)))
         if not any(u == "Usage: " + path or u.startswith("Usage: " + path + " ") for u in r["usages"]) or (r["usages"] and r["usages"][0].split(" COMMAND")[0] != r["usages"][0].split(" COMMAND")[0]):
             out.append(("policy", "rejection must print the usage of %r, printed %s" % (path, r["usages"])))
         elif not r["usages"][0].startswith("Usage: " + path):
